@@ -101,6 +101,10 @@ theorem no_stuck_after_cancel (p : Pipeline) (hlive : LiveOk p = true) (hsafe : 
     (∃ l s1, Step p s (.act g l) (.run s1)) ∨ (∃ s1, Step p s (.exit g) (.run s1)) :=
   min_running_steps hlive hsafe hr hc hrun hmin
 
+/-- non-vacuity: in the initial state of the regenerated fan-in helper the caller is running -/
+example : Running helper_dosnode_mergeErrors (init helper_dosnode_mergeErrors) 2 :=
+  ⟨_, 0, rfl, rfl, rfl⟩
+
 /-! ## 3. termination is always reachable -/
 
 /-- **exit_always_reachable.**  From every reachable state in which the pipeline context is done
@@ -170,5 +174,28 @@ theorem query_pipelines_terminate_and_never_crash :
   · obtain ⟨s', a, b, _⟩ := h1.2 s hr hc; exact ⟨s', a, b⟩
   · obtain ⟨s', a, b, _⟩ := h2.2 s hr hc; exact ⟨s', a, b⟩
   · obtain ⟨s', a, b, _⟩ := h3.2 s hr hc; exact ⟨s', a, b⟩
+
+/-- the p2p client pipes (`client.run`: read / decrypt / decode / dispatch / pack / encrypt / send);
+their context is cancel-only (`context.WithCancel` in `newClient`, extracted fact) -/
+theorem p2p_client_pipes_terminate_and_never_crash :
+    p2p_client_ctx0 = "WithCancel" ∧ NoCrash p2p_client ∧
+    ∀ s, Reach p2p_client s → s.ctxDone 0 = true → ∃ s', Path p2p_client s s' ∧ Quiet p2p_client s' := by
+  have h := pipeline_terminates_and_never_crashes _ p2p_client_wf
+  exact ⟨by decide, h.1, fun s hr hc => by obtain ⟨s', a, b, _⟩ := h.2 s hr hc; exact ⟨s', a, b⟩⟩
+
+/-- every fan-in / subscribe helper, driven by well-behaved upstream stages and the usual caller
+loop: never a channel panic, always drains after the deadline, and its output channel is closed -/
+theorem helpers_terminate_and_never_crash :
+    ∀ p ∈ [helper_dosnode_mergeErrors, helper_dosnode_fanIn, helper_utils_MergeErrors, helper_onchain_merge,
+      helper_onchain_mergeError, helper_onchain_first, helper_onchain_firstEvent, helper_p2p_merge,
+      helper_dkg_mergeErrors, helper_dkg_fanOut],
+    NoCrash p ∧ ∀ s, Reach p s → s.ctxDone 0 = true → ∃ s', Path p s s' ∧ Quiet p s' ∧
+      ∀ (h : Gi) (gr : Goroutine) (c : Ch), p.gs[h]? = some gr → gr.static = true → gr.daemon = false →
+        closesOnAllPaths gr c = true → c < p.chans.length → s'.closed c = true := by
+  intro p hp
+  apply pipeline_terminates_and_never_crashes
+  have h := helpers_wf
+  rw [List.all_eq_true] at h
+  exact h p hp
 
 end Dos.Props.C14
